@@ -5,22 +5,34 @@ package main
 // It records, per call, a digest of the result and bitwise digests of the argument before and after.
 // No expectations here: CallsTrace.tla decides purity, determinism and (from the race detector's log,
 // appended by the orchestrator) freedom from data races.
+//
+// Arguments: geometries of every type (also a LinearRing, empty ones, one without layout, degenerate ones), their
+// encodings - proper, and MALFORMED / truncated ones, so that the decoders' error paths run alone and concurrently
+// (the recorded result is then the error class) - and the other values pure functions take (Bounds, GeoJSON Feature /
+// FeatureCollection / Geometry / CRS, a TreeSet, an intersection Result, one WKT encoder).
+// Operations: only those documented as pure. Where an API accumulates into or fills an object by contract (a centroid
+// calculator, a sql Scan wrapper, a Feature being unmarshalled, sorting), that object is created per call (sorting: a
+// per-call copy of the coordinates); what is shared are the things it reads.
+// Under concurrency no per-call snapshots are taken (they would not be atomic): every argument gets ONE final
+// snapshot after all goroutines have finished.
 
 import (
 	"bufio"
 	"bytes"
 	"crypto/sha1"
+	"database/sql/driver"
 	"encoding/binary"
 	"encoding/hex"
 	"encoding/json"
+	"encoding/xml"
 	"fmt"
-	"io"
 	"math"
 	"math/rand"
 	"os"
 	"reflect"
-	"strings"
+	"sort"
 	"sync"
+	"unsafe"
 
 	"github.com/twpayne/go-geom"
 	"github.com/twpayne/go-geom/bigxy"
@@ -28,17 +40,23 @@ import (
 	"github.com/twpayne/go-geom/encoding/ewkbhex"
 	"github.com/twpayne/go-geom/encoding/geojson"
 	"github.com/twpayne/go-geom/encoding/igc"
+	kmlenc "github.com/twpayne/go-geom/encoding/kml"
 	"github.com/twpayne/go-geom/encoding/wkb"
 	"github.com/twpayne/go-geom/encoding/wkbcommon"
 	"github.com/twpayne/go-geom/encoding/wkbhex"
 	"github.com/twpayne/go-geom/encoding/wkt"
+	"github.com/twpayne/go-geom/sorting"
 	"github.com/twpayne/go-geom/transform"
 	"github.com/twpayne/go-geom/xy"
+	"github.com/twpayne/go-geom/xy/lineintersection"
 	"github.com/twpayne/go-geom/xy/lineintersector"
 	"github.com/twpayne/go-geom/xyz"
 )
 
-// a shared argument: a geometry, its encodings (byte slices / strings handed to the decoders) and some coords
+// a shared argument: a geometry, its encodings (byte slices / strings handed to the decoders), some coords, and the
+// other kinds of value the library's pure functions take: Bounds, GeoJSON Feature / FeatureCollection / Geometry / CRS
+// values, a WKT encoder, a populated TreeSet, an intersection Result. Everything here is shared between the goroutines
+// of the concurrent pass and is part of snapshot().
 type callArg struct {
 	id    string
 	g     geom.T
@@ -47,24 +65,45 @@ type callArg struct {
 	gjB   []byte
 	wktS  string
 	hexS  string
+	ehexS string
 	igcB  []byte
+	featB []byte       // a GeoJSON Feature document
+	fcB   []byte       // a GeoJSON FeatureCollection document
 	pts   []geom.Coord // a few coordinates taken from the geometry (own storage, shared between goroutines)
+	pts3  []geom.Coord // the same, padded to three ordinates (for package xyz)
+	bnd   *geom.Bounds // the geometry's bounds (an object of its own, computed from the twin)
+	bnd2  *geom.Bounds // a box around pts[0]
+	feat  *geojson.Feature
+	feat2 *geojson.Feature
+	fc    *geojson.FeatureCollection
+	gjG   *geojson.Geometry
+	crs   *geojson.CRS
+	enc   *wkt.Encoder // ONE encoder value used by all goroutines: the struct holds its option only (no per-call state).
+	// It is the one shared value that is NOT part of snapshot(): it is a service object, not data handed to a function;
+	// what it does with its own fields sequentially is left open (a data race on them, or a different result, is not).
+	tree *transform.TreeSet
+	lir  lineintersection.Result
 }
 
 func dig(parts ...any) string {
 	h := sha1.New()
+	var b8 [8]byte
+	fl := func(f float64) {
+		binary.LittleEndian.PutUint64(b8[:], math.Float64bits(f))
+		h.Write(b8[:])
+	}
 	for _, p := range parts {
 		switch v := p.(type) {
 		case []float64:
 			for _, f := range v {
-				_ = binary.Write(h, binary.LittleEndian, math.Float64bits(f))
+				fl(f)
 			}
 		case geom.Coord:
 			for _, f := range v {
-				_ = binary.Write(h, binary.LittleEndian, math.Float64bits(f))
+				fl(f)
 			}
 		case float64:
-			_ = binary.Write(h, binary.LittleEndian, math.Float64bits(v))
+			fl(v)
 		case []byte:
 			h.Write(v)
 		case string:
@@ -77,8 +116,16 @@ func dig(parts ...any) string {
 	return hex.EncodeToString(h.Sum(nil))[:16]
 }
 
-func geomDigest(g geom.T) string {
+func isNilT(g geom.T) bool {
 	if g == nil {
+		return true
+	}
+	v := reflect.ValueOf(g)
+	return v.Kind() == reflect.Ptr && v.IsNil()
+}
+
+func geomDigest(g geom.T) string {
+	if isNilT(g) {
 		return "nil"
 	}
 	if gc, ok := g.(*geom.GeometryCollection); ok {
@@ -91,66 +138,139 @@ func geomDigest(g geom.T) string {
 	return dig(kindOf(g), int(g.Layout()), g.SRID(), g.FlatCoords(), fmt.Sprint(g.Ends()), fmt.Sprint(g.Endss()))
 }
 
-// deepWalk writes every field of a value - exported or not, through pointers, slices and interfaces - into h:
+// error class of a call: the dynamic type of the error (texts are left open)
+func errK(err error) string {
+	if err == nil {
+		return "none"
+	}
+	return fmt.Sprintf("%T", err)
+}
+
+// deepWalk appends every field of a value - exported or not, through pointers, slices, maps and interfaces - to b:
 // the bitwise snapshot of an argument (a query that caches something in an unexported field changes it).
-func deepWalk(h io.Writer, v reflect.Value, depth int) {
-	if depth > 12 {
-		return
+func deepWalk(b []byte, v reflect.Value, depth int) []byte {
+	if depth > 400 {
+		return b
 	}
 	switch v.Kind() {
+	case reflect.Invalid:
+		b = append(b, "invalid;"...)
 	case reflect.Ptr, reflect.Interface:
 		if v.IsNil() {
-			fmt.Fprint(h, "nil;")
-			return
+			return append(b, "nil;"...)
 		}
-		deepWalk(h, v.Elem(), depth+1)
+		b = append(b, '*')
+		b = deepWalk(b, v.Elem(), depth+1)
 	case reflect.Struct:
+		b = append(b, '{')
 		for i := 0; i < v.NumField(); i++ {
-			fmt.Fprintf(h, "%s:", v.Type().Field(i).Name)
-			deepWalk(h, v.Field(i), depth+1)
+			b = append(b, byte('a'+i), ':')
+			b = deepWalk(b, v.Field(i), depth+1)
 		}
+		b = append(b, '}')
 	case reflect.Slice, reflect.Array:
 		if v.Kind() == reflect.Slice && v.IsNil() {
-			fmt.Fprint(h, "nilslice;")
-			return
+			return append(b, "nilslice;"...)
 		}
-		fmt.Fprintf(h, "[%d]", v.Len())
-		for i := 0; i < v.Len(); i++ {
-			deepWalk(h, v.Index(i), depth+1)
+		n := v.Len()
+		b = binary.LittleEndian.AppendUint32(append(b, '['), uint32(n))
+		if v.Kind() == reflect.Slice && n > 0 {
+			switch v.Type().Elem().Kind() {
+			case reflect.Float64: // the bits of the floats, read in one go
+				for _, f := range unsafe.Slice((*float64)(v.UnsafePointer()), n) {
+					b = binary.LittleEndian.AppendUint64(b, math.Float64bits(f))
+				}
+				return b
+			case reflect.Uint8:
+				return append(b, unsafe.Slice((*byte)(v.UnsafePointer()), n)...)
+			}
+		}
+		for i := 0; i < n; i++ {
+			b = deepWalk(b, v.Index(i), depth+1)
+		}
+	case reflect.Map:
+		if v.IsNil() {
+			return append(b, "nilmap;"...)
+		}
+		keys := v.MapKeys()
+		sort.Slice(keys, func(i, j int) bool { return fmt.Sprint(keys[i]) < fmt.Sprint(keys[j]) })
+		b = binary.LittleEndian.AppendUint32(append(b, 'm'), uint32(len(keys)))
+		for _, k := range keys {
+			b = deepWalk(b, k, depth+1)
+			b = append(b, '=')
+			b = deepWalk(b, v.MapIndex(k), depth+1)
 		}
 	case reflect.Float64, reflect.Float32:
-		fmt.Fprintf(h, "%x;", math.Float64bits(v.Float()))
+		b = binary.LittleEndian.AppendUint64(append(b, 'f'), math.Float64bits(v.Float()))
 	case reflect.Int, reflect.Int8, reflect.Int16, reflect.Int32, reflect.Int64:
-		fmt.Fprintf(h, "%d;", v.Int())
+		b = binary.LittleEndian.AppendUint64(append(b, 'i'), uint64(v.Int()))
 	case reflect.Uint, reflect.Uint8, reflect.Uint16, reflect.Uint32, reflect.Uint64:
-		fmt.Fprintf(h, "%d;", v.Uint())
+		b = binary.LittleEndian.AppendUint64(append(b, 'u'), v.Uint())
 	case reflect.Bool:
-		fmt.Fprintf(h, "%t;", v.Bool())
+		if v.Bool() {
+			b = append(b, 'T')
+		} else {
+			b = append(b, 'F')
+		}
 	case reflect.String:
-		fmt.Fprintf(h, "%q;", v.String())
+		s := v.String()
+		b = append(binary.LittleEndian.AppendUint32(append(b, 's'), uint32(len(s))), s...)
 	default:
-		fmt.Fprintf(h, "<%s>;", v.Kind())
+		b = append(append(b, '<'), v.Kind().String()...)
 	}
+	return b
 }
 
 func deepDigest(x any) string {
-	h := sha1.New()
-	deepWalk(h, reflect.ValueOf(x), 0)
-	return hex.EncodeToString(h.Sum(nil))[:16]
+	sum := sha1.Sum(deepWalk(make([]byte, 0, 4096), reflect.ValueOf(x), 0))
+	return hex.EncodeToString(sum[:])[:16]
 }
 
-// snapshot: everything a call could have modified in its argument, plus the exported package-level variables
-func (a *callArg) snapshot() string {
-	parts := []any{geomDigest(a.g), deepDigest(a.g), a.wkbB, a.ewkbB, a.gjB, a.wktS, a.hexS, a.igcB, int(geojson.DefaultLayout), fmt.Sprint(wkbcommon.MaxGeometryElements)}
-	for _, p := range a.pts {
-		parts = append(parts, p)
+// a Feature: all of its own fields; its geometry by identity when it IS the shared geometry (walked already)
+func (a *callArg) featDigest(f *geojson.Feature) string {
+	if f == nil {
+		return "nil"
 	}
-	return dig(parts...)
+	gd := "shared-g"
+	if f.Geometry != a.g {
+		gd = deepDigest(f.Geometry)
+	}
+	return dig(f.ID, deepDigest(f.BBox), deepDigest(f.Properties), gd)
+}
+
+// snapshot: everything a call could have modified in its argument, plus the exported package-level variables.
+// One short digest per component (geometry, encodings, coordinates, bounds, features, other values, package variables),
+// so that a deviation names the component.
+func (a *callArg) snapshot() string {
+	short := func(s string) string { return s[:10] }
+	enc := dig(a.wkbB, a.ewkbB, a.gjB, a.wktS, a.hexS, a.ehexS, a.igcB, a.featB, a.fcB)
+	var cp []any
+	for _, p := range a.pts {
+		cp = append(cp, p)
+	}
+	for _, p := range a.pts3 {
+		cp = append(cp, p)
+	}
+	fparts := []any{a.featDigest(a.feat), a.featDigest(a.feat2)}
+	if a.fc != nil {
+		fparts = append(fparts, deepDigest(a.fc.BBox), len(a.fc.Features))
+		for i, f := range a.fc.Features {
+			// the collection must still list the same Feature VALUES (by identity), each covered above
+			fparts = append(fparts, i, f == a.feat, f == a.feat2)
+		}
+	}
+	pkg := dig(int(geojson.DefaultLayout), fmt.Sprint(wkbcommon.MaxGeometryElements),
+		fmt.Sprint(wkb.XDR, wkb.NDR, ewkb.XDR, ewkb.NDR, wkbhex.XDR, wkbhex.NDR, ewkbhex.XDR, ewkbhex.NDR, wkbcommon.XDR, wkbcommon.NDR),
+		fmt.Sprint(wkt.ErrBraceMismatch))
+	return "g:" + short(dig(geomDigest(a.g), deepDigest(a.g))) + ",e:" + short(enc) + ",c:" + short(dig(cp...)) +
+		",b:" + short(dig(deepDigest(a.bnd), deepDigest(a.bnd2))) + ",f:" + short(dig(fparts...)) +
+		",o:" + short(dig(deepDigest(a.gjG), deepDigest(a.crs), deepDigest(a.tree), deepDigest(a.lir))) +
+		",v:" + short(pkg)
 }
 
 func resGeom(g geom.T, err error) string {
 	if err != nil {
-		return "err:" + errClass(err)
+		return "err:" + errK(err)
 	}
 	return geomDigest(g)
 }
@@ -213,6 +333,43 @@ func flatOfT(g geom.T) ([]float64, bool) {
 	return g.FlatCoords(), true
 }
 
+// sub runs one part of an operation; a panic becomes that part's (recorded) result
+func sub(f func() any) (r any) {
+	defer func() {
+		if e := recover(); e != nil {
+			r = "panic:" + fmt.Sprint(e)
+		}
+	}()
+	return f()
+}
+
+// scanAll scans src into each (FRESH) sql wrapper: error class and the geometry the wrapper holds afterwards
+func scanAll(src any, ws ...interface{ Scan(any) error }) []any {
+	var parts []any
+	for _, w := range ws {
+		w := w
+		parts = append(parts, sub(func() any {
+			err := w.Scan(src)
+			f := reflect.ValueOf(w).Elem().Field(0) // the embedded geometry
+			var g geom.T
+			if !f.IsNil() {
+				g, _ = f.Interface().(geom.T)
+			}
+			return errK(err) + "/" + geomDigest(g)
+		}))
+	}
+	return parts
+}
+
+// what a decoded Feature holds
+func featResult(f *geojson.Feature) string {
+	if f == nil {
+		return "nil"
+	}
+	props, _ := json.Marshal(f.Properties)
+	return dig(f.ID, deepDigest(f.BBox), geomDigest(f.Geometry), props)
+}
+
 func callOps() []callOp {
 	guard := func(f func(a *callArg) string) func(a *callArg) string {
 		return func(a *callArg) (r string) {
@@ -244,6 +401,8 @@ func callOps() []callOp {
 			switch g := a.g.(type) {
 			case *geom.LineString:
 				return dig(fmt.Sprint(g.Coords()), g.NumCoords())
+			case *geom.LinearRing:
+				return dig(fmt.Sprint(g.Coords()), g.NumCoords())
 			case *geom.Polygon:
 				return dig(fmt.Sprint(g.Coords()), g.NumLinearRings(), geomDigest(g.LinearRing(0)))
 			case *geom.MultiPoint:
@@ -260,6 +419,8 @@ func callOps() []callOp {
 		{"Clone", func(a *callArg) string {
 			switch g := a.g.(type) {
 			case *geom.LineString:
+				return geomDigest(g.Clone())
+			case *geom.LinearRing:
 				return geomDigest(g.Clone())
 			case *geom.Polygon:
 				return geomDigest(g.Clone())
@@ -385,7 +546,14 @@ func callOps() []callOp {
 		}},
 		{"igc.Read", func(a *callArg) string {
 			t, err := igc.Read(bytes.NewReader(a.igcB))
-			return dig(geomDigest(t.LineString), len(t.Headers), fmt.Sprint(err))
+			if t == nil {
+				return "nil-T err:" + errK(err)
+			}
+			n := 0
+			if es, ok := err.(igc.Errors); ok {
+				n = len(es)
+			}
+			return dig(geomDigest(t.LineString), len(t.Headers), fmt.Sprint(t.Headers), t.HasCoords(), errK(err), n)
 		}},
 		{"sql.Value", func(a *callArg) string {
 			v, err := (&wkb.Geom{T: a.g}).Value()
@@ -393,6 +561,348 @@ func callOps() []callOp {
 			v2, err2 := (&ewkb.GeometryCollection{}).Value()
 			b2, _ := v2.([]byte)
 			return dig(b, b2, fmt.Sprint(err, err2))
+		}},
+		// ------------------------------------------------------------------ further entry points (all documented as pure)
+		{"kml.Encode", func(a *callArg) string {
+			el, err := kmlenc.Encode(a.g)
+			if err != nil || el == nil {
+				return "err:" + errK(err)
+			}
+			b, err := xml.Marshal(el)
+			return dig(b, errK(err))
+		}},
+		{"kml.Encode-typed", func(a *callArg) string {
+			var el xml.Marshaler
+			switch g := a.g.(type) {
+			case *geom.Point:
+				el = kmlenc.EncodePoint(g)
+			case *geom.LineString:
+				el = kmlenc.EncodeLineString(g)
+			case *geom.LinearRing:
+				el = kmlenc.EncodeLinearRing(g)
+			case *geom.Polygon:
+				el = kmlenc.EncodePolygon(g)
+			case *geom.MultiPoint:
+				el = kmlenc.EncodeMultiPoint(g)
+			case *geom.MultiLineString:
+				el = kmlenc.EncodeMultiLineString(g)
+			case *geom.MultiPolygon:
+				el = kmlenc.EncodeMultiPolygon(g)
+			case *geom.GeometryCollection:
+				e, err := kmlenc.EncodeGeometryCollection(g)
+				if err != nil {
+					return "err:" + errK(err)
+				}
+				el = e
+			default:
+				return "n/a"
+			}
+			b, err := xml.Marshal(el)
+			return dig(b, errK(err))
+		}},
+		{"ewkbhex.Decode", func(a *callArg) string { return resGeom(ewkbhex.Decode(a.ehexS)) }},
+		{"ewkb.Read", func(a *callArg) string { return resGeom(ewkb.Read(bytes.NewReader(a.ewkbB))) }},
+		{"wkb.Write", func(a *callArg) string {
+			var b1, b2 bytes.Buffer
+			e1 := wkb.Write(&b1, wkb.NDR, a.g, wkbcommon.WKBOptionEmptyPointHandling(wkbcommon.EmptyPointHandlingNaN))
+			e2 := wkb.Write(&b2, wkb.XDR, a.g)
+			return dig(b1.Bytes(), b2.Bytes(), errK(e1), errK(e2))
+		}},
+		{"ewkb.Write", func(a *callArg) string {
+			var b1, b2 bytes.Buffer
+			e1 := ewkb.Write(&b1, ewkb.NDR, a.g)
+			e2 := ewkb.Write(&b2, ewkb.XDR, a.g)
+			return dig(b1.Bytes(), b2.Bytes(), errK(e1), errK(e2))
+		}},
+		{"wkbcommon.flat", func(a *callArg) string {
+			fc, ok := flatOfT(a.g)
+			if !ok || a.g.Stride() == 0 {
+				return "n/a"
+			}
+			var buf bytes.Buffer
+			e1 := wkbcommon.WriteFlatCoords1(&buf, wkbcommon.NDR, fc, a.g.Stride())
+			e2 := wkbcommon.WriteFloatArray(&buf, wkbcommon.XDR, fc)
+			e3 := wkbcommon.WriteFlatCoords0(&buf, wkbcommon.XDR, a.pts[0])
+			back, e4 := wkbcommon.ReadFlatCoords1(bytes.NewReader(buf.Bytes()), wkbcommon.NDR, a.g.Stride())
+			p := wkbcommon.InitWKBParams(wkbcommon.WKBParams{}, wkbcommon.WKBOptionEmptyPointHandling(wkbcommon.EmptyPointHandlingNaN))
+			return dig(buf.Bytes(), back, errK(e1), errK(e2), errK(e3), errK(e4), fmt.Sprint(p))
+		}},
+		{"sql.Scan-wkb", func(a *callArg) string {
+			parts := scanAll(a.wkbB, &wkb.Geom{}, &wkb.Point{}, &wkb.LineString{}, &wkb.Polygon{}, &wkb.MultiPoint{},
+				&wkb.MultiLineString{}, &wkb.MultiPolygon{}, &wkb.GeometryCollection{})
+			parts = append(parts, scanAll(nil, &wkb.Geom{}, &wkb.Polygon{})...)
+			parts = append(parts, scanAll(a.wktS, &wkb.Geom{}, &wkb.LineString{})...)
+			return dig(parts...)
+		}},
+		{"sql.Scan-ewkb", func(a *callArg) string {
+			parts := scanAll(a.ewkbB, &ewkb.Point{}, &ewkb.LineString{}, &ewkb.Polygon{}, &ewkb.MultiPoint{},
+				&ewkb.MultiLineString{}, &ewkb.MultiPolygon{}, &ewkb.GeometryCollection{})
+			parts = append(parts, scanAll(nil, &ewkb.Point{}, &ewkb.GeometryCollection{})...)
+			parts = append(parts, scanAll(a.hexS, &ewkb.MultiPoint{})...)
+			return dig(parts...)
+		}},
+		{"sql.Value-typed", func(a *callArg) string {
+			var w, e driver.Valuer
+			var valid bool
+			switch g := a.g.(type) {
+			case *geom.Point:
+				w, e, valid = &wkb.Point{Point: g}, &ewkb.Point{Point: g}, (&ewkb.Point{Point: g}).Valid()
+			case *geom.LineString:
+				w, e, valid = &wkb.LineString{LineString: g}, &ewkb.LineString{LineString: g}, (&ewkb.LineString{LineString: g}).Valid()
+			case *geom.Polygon:
+				w, e, valid = &wkb.Polygon{Polygon: g}, &ewkb.Polygon{Polygon: g}, (&ewkb.Polygon{Polygon: g}).Valid()
+			case *geom.MultiPoint:
+				w, e, valid = &wkb.MultiPoint{MultiPoint: g}, &ewkb.MultiPoint{MultiPoint: g}, (&ewkb.MultiPoint{MultiPoint: g}).Valid()
+			case *geom.MultiLineString:
+				w, e, valid = &wkb.MultiLineString{MultiLineString: g}, &ewkb.MultiLineString{MultiLineString: g}, (&ewkb.MultiLineString{MultiLineString: g}).Valid()
+			case *geom.MultiPolygon:
+				w, e, valid = &wkb.MultiPolygon{MultiPolygon: g}, &ewkb.MultiPolygon{MultiPolygon: g}, (&ewkb.MultiPolygon{MultiPolygon: g}).Valid()
+			case *geom.GeometryCollection:
+				w, e, valid = &wkb.GeometryCollection{GeometryCollection: g}, &ewkb.GeometryCollection{GeometryCollection: g}, (&ewkb.GeometryCollection{GeometryCollection: g}).Valid()
+			default:
+				return "n/a"
+			}
+			v1, e1 := w.Value()
+			v2, e2 := e.Value()
+			b1, _ := v1.([]byte)
+			b2, _ := v2.([]byte)
+			return dig(b1, b2, errK(e1), errK(e2), valid, geomDigest((&wkb.Geom{T: a.g}).Geom()))
+		}},
+		{"geojson.Encode+options", func(a *callArg) string {
+			j := func(g *geojson.Geometry, err error) string {
+				if err != nil {
+					return "err:" + errK(err)
+				}
+				b, err := json.Marshal(g)
+				return string(b) + errK(err)
+			}
+			r1 := sub(func() any { return j(geojson.Encode(a.g)) })
+			r2 := sub(func() any { return j(geojson.Encode(a.g, geojson.EncodeGeometryWithBBox())) })
+			r3 := sub(func() any {
+				return j(geojson.Encode(a.g, geojson.EncodeGeometryWithCRS(a.crs), geojson.EncodeGeometryWithBBox(), geojson.EncodeGeometryWithMaxDecimalDigits(2)))
+			})
+			r4 := sub(func() any {
+				b, err := geojson.Marshal(a.g, geojson.EncodeGeometryWithCRS(a.crs))
+				return string(b) + errK(err)
+			})
+			return dig(r1, r2, r3, r4)
+		}},
+		{"geojson.Geometry.Decode", func(a *callArg) string {
+			r := resGeom(a.gjG.Decode())
+			b, err := json.Marshal(a.gjG)
+			return dig(r, b, errK(err))
+		}},
+		{"geojson.Feature.MarshalJSON", func(a *callArg) string {
+			b1, e1 := a.feat.MarshalJSON()
+			b2, e2 := json.Marshal(a.feat2)
+			return dig(b1, b2, errK(e1), errK(e2))
+		}},
+		{"geojson.FeatureCollection.MarshalJSON", func(a *callArg) string {
+			b1, e1 := a.fc.MarshalJSON()
+			b2, e2 := (&geojson.FeatureCollection{}).MarshalJSON()
+			return dig(b1, b2, errK(e1), errK(e2))
+		}},
+		{"geojson.Feature.UnmarshalJSON", func(a *callArg) string {
+			var f geojson.Feature // a fresh value per call: UnmarshalJSON fills its receiver
+			err := f.UnmarshalJSON(a.featB)
+			var f2 geojson.Feature
+			err2 := json.Unmarshal(a.featB, &f2)
+			return dig(featResult(&f), errK(err), featResult(&f2), errK(err2))
+		}},
+		{"geojson.FeatureCollection.UnmarshalJSON", func(a *callArg) string {
+			var fc geojson.FeatureCollection
+			err := fc.UnmarshalJSON(a.fcB)
+			parts := []any{errK(err), deepDigest(fc.BBox), len(fc.Features)}
+			for _, f := range fc.Features {
+				parts = append(parts, featResult(f))
+			}
+			return dig(parts...)
+		}},
+		{"wkt.Encoder", func(a *callArg) string {
+			e := wkt.NewEncoder(wkt.EncodeOptionWithMaxDecimalDigits(3)) // one encoder per call, used twice
+			s1, e1 := e.Encode(a.g)
+			s2, e2 := e.Encode(a.g)
+			s3, e3 := wkt.NewEncoder().Encode(a.g)
+			return dig(s1, s2, s3, errK(e1), errK(e2), errK(e3))
+		}},
+		{"wkt.Encoder-shared", func(a *callArg) string {
+			s, err := a.enc.Encode(a.g)
+			return dig(s, errK(err))
+		}},
+		{"Bounds.queries", func(a *callArg) string {
+			b, b2 := a.bnd, a.bnd2
+			parts := []any{int(b.Layout()), b.IsEmpty(), b2.IsEmpty(), int(b2.Layout())}
+			for _, l := range []geom.Layout{geom.NoLayout, geom.XY, b.Layout()} {
+				l := l
+				parts = append(parts,
+					sub(func() any { return b.Overlaps(l, b2) }), sub(func() any { return b2.Overlaps(l, b) }), sub(func() any { return b.Overlaps(l, b) }),
+					sub(func() any { return b.OverlapsPoint(l, a.pts[0]) }), sub(func() any { return b2.OverlapsPoint(l, a.pts[1]) }))
+			}
+			parts = append(parts, sub(func() any { return geomDigest(b.Polygon()) }), sub(func() any { return geomDigest(b2.Polygon()) }),
+				sub(func() any { return deepDigest(b.Clone()) }))
+			for d := 0; d < b.Layout().Stride(); d++ {
+				d := d
+				parts = append(parts, sub(func() any { return dig(b.Min(d), b.Max(d)) }))
+			}
+			return dig(parts...)
+		}},
+		{"Coord.methods", func(a *callArg) string {
+			p := a.pts
+			l := geom.XY
+			if _, isGC := a.g.(*geom.GeometryCollection); !isGC && a.g.Layout() != geom.NoLayout {
+				l = a.g.Layout()
+			}
+			c := p[0].Clone()
+			return dig(c, p[0].X(), p[0].Y(), fmt.Sprint(p[0].Equal(l, p[1]), p[0].Equal(l, c), p[2].Equal(geom.XY, p[3]), p[0].Equal(geom.XYZM, p[0])),
+				geom.PointEmptyCoord())
+		}},
+		{"accessors", func(a *callArg) string {
+			parts := []any{}
+			add := func(f func() any) { parts = append(parts, sub(f)) }
+			switch g := a.g.(type) {
+			case *geom.Point:
+				add(func() any { return dig(g.X(), g.Y()) })
+				add(func() any { return g.Z() })
+				add(func() any { return g.M() })
+				add(func() any { return g.FlatCoords() })
+			case *geom.LineString:
+				add(func() any { return g.Coord(0) })
+				add(func() any { return g.Coord(g.NumCoords() - 1) })
+				add(func() any { i, f := g.Interpolate(a.pts[1][0], 0); return dig(i, f) })
+				add(func() any { i, f := g.Interpolate(a.pts[2][g.Stride()-1], g.Stride()-1); return dig(i, f) })
+				add(func() any { return geomDigest(g.SubLineString(0, g.NumCoords()/2)) })
+			case *geom.LinearRing:
+				add(func() any { return g.Coord(0) })
+				add(func() any { return dig(g.Area(), g.Length(), g.NumCoords()) })
+			case *geom.Polygon:
+				add(func() any { return g.NumLinearRings() })
+				add(func() any { return geomDigest(g.LinearRing(g.NumLinearRings() - 1)) })
+				add(func() any { return fmt.Sprint(g.Ends(), g.NumCoords()) })
+			case *geom.MultiPoint:
+				add(func() any { return g.Coord(0) })
+				add(func() any { return geomDigest(g.Point(0)) })
+				add(func() any { return fmt.Sprint(g.Ends(), g.NumCoords(), g.NumPoints()) })
+			case *geom.MultiLineString:
+				add(func() any { return geomDigest(g.LineString(g.NumLineStrings() - 1)) })
+				add(func() any { return fmt.Sprint(g.Ends(), g.NumCoords(), g.NumLineStrings()) })
+			case *geom.MultiPolygon:
+				add(func() any { return geomDigest(g.Polygon(0)) })
+				add(func() any { return fmt.Sprint(g.Endss(), g.NumCoords(), g.NumPolygons()) })
+			case *geom.GeometryCollection:
+				add(func() any { return geomDigest(g.Geom(0)) })
+				add(func() any {
+					return fmt.Sprint(g.NumGeoms(), errK(g.CheckLayout(geom.XY)), errK(g.CheckLayout(geom.XYZM)))
+				})
+			}
+			return dig(parts...)
+		}},
+		{"xy.centroid-calculators", func(a *callArg) string {
+			// a calculator per call (its Add methods accumulate into the calculator, which belongs to this call)
+			switch g := a.g.(type) {
+			case *geom.Polygon:
+				ac := xy.NewAreaCentroidCalculator(g.Layout())
+				c0 := ac.GetCentroid()
+				ac.AddPolygon(g)
+				c1 := ac.GetCentroid()
+				ac.AddPolygon(g)
+				lc := xy.NewLineCentroidCalculator(g.Layout())
+				lc.AddPolygon(g)
+				return dig(c0, c1, ac.GetCentroid(), lc.GetCentroid())
+			case *geom.LineString:
+				lc := xy.NewLineCentroidCalculator(g.Layout())
+				lc.AddLine(g)
+				c1 := lc.GetCentroid()
+				return dig(c1, lc.AddLine(g).GetCentroid())
+			case *geom.LinearRing:
+				lc := xy.NewLineCentroidCalculator(g.Layout())
+				return dig(lc.AddLinearRing(g).GetCentroid())
+			case *geom.Point:
+				pc := xy.NewPointCentroidCalculator()
+				pc.AddPoint(g)
+				pc.AddCoord(a.pts[0])
+				return dig(pc.GetCentroid())
+			case *geom.MultiPoint:
+				pc := xy.NewPointCentroidCalculator()
+				for i := 0; i < g.NumPoints(); i++ {
+					pc.AddPoint(g.Point(i))
+				}
+				return dig(pc.GetCentroid())
+			}
+			return "n/a"
+		}},
+		{"xy.typed-centroids", func(a *callArg) string {
+			switch g := a.g.(type) {
+			case *geom.Point:
+				return dig(xy.PointsCentroid(g), xy.PointsCentroid(g, g, g))
+			case *geom.MultiPoint:
+				return dig(xy.MultiPointCentroid(g), sub(func() any { return xy.PointsCentroidFlat(g.Layout(), g.FlatCoords()) }))
+			case *geom.LineString:
+				return dig(xy.LinesCentroid(g), xy.LinesCentroid(g, g))
+			case *geom.LinearRing:
+				return dig(xy.LinearRingsCentroid(g), xy.LinearRingsCentroid(g, g))
+			case *geom.MultiLineString:
+				return dig(xy.MultiLineCentroid(g))
+			case *geom.Polygon:
+				return dig(xy.PolygonsCentroid(g), xy.PolygonsCentroid(g, g))
+			case *geom.MultiPolygon:
+				return dig(xy.MultiPolygonCentroid(g))
+			}
+			return "n/a"
+		}},
+		{"xy.predicates+angles", func(a *callArg) string {
+			p := a.pts
+			fc, ok := flatOfT(a.g)
+			eq := "n/a"
+			if ok && len(fc) >= 4 {
+				eq = fmt.Sprint(xy.Equal(fc, 0, fc, 0), xy.Equal(fc, 0, fc, len(fc)-2), xy.Equal(fc, 0, p[0], 0))
+			}
+			a1, a2 := xy.Angle(p[0], p[1]), xy.Angle(p[2], p[3])
+			return dig(eq, fmt.Sprint(xy.IsObtuse(p[0], p[1], p[2]), xy.IsObtuse(p[1], p[0], p[3]), xy.IsAcute(p[3], p[2], p[1])),
+				xy.AngleBetweenOriented(p[0], p[1], p[2]), xy.InteriorAngle(p[0], p[1], p[2]), xy.AngleFromOrigin(p[3]),
+				int(xy.AngleOrientation(a1, a2)), xy.Normalize(a1+7), xy.NormalizePositive(a2-7), xy.Diff(a1, a2))
+		}},
+		{"xyz.vectors", func(a *callArg) string {
+			q := a.pts3 // shared three-ordinate coordinates
+			return dig(xyz.Distance(q[0], q[1]), xyz.DistancePointToLine(q[0], q[1], q[2]), xyz.DistanceLineToLine(q[0], q[1], q[2], q[3]),
+				fmt.Sprint(xyz.Equals(q[0], q[1]), xyz.Equals(q[2], q[2])), xyz.VectorDot(q[0], q[1], q[2], q[3]), xyz.VectorLength(q[1]), xyz.VectorNormalize(q[2]))
+		}},
+		{"lineintersection.Result", func(a *callArg) string {
+			r := &a.lir // the shared Result value
+			p := a.pts
+			r2 := lineintersector.LineIntersectsLine(lineintersector.RobustLineIntersector{}, p[0], p[2], p[1], p[3])
+			return dig(r.HasIntersection(), int(r.Type()), r.Type().String(), fmt.Sprint(r.Intersection()),
+				r2.HasIntersection(), r2.Type().String(), fmt.Sprint(r2.Intersection()),
+				fmt.Sprint(lineintersector.PointIntersectsLine(lineintersector.NonRobustLineIntersector{}, p[1], p[0], p[2])))
+		}},
+		{"sorting-on-a-copy", func(a *callArg) string {
+			// sorting sorts in place by contract: every call sorts its OWN copy; the focal point and the layout are shared
+			fc, ok := flatOfT(a.g)
+			if !ok || a.g.Stride() < 2 || len(fc) == 0 {
+				return "n/a"
+			}
+			l := a.g.Layout()
+			c1 := append([]float64(nil), fc...)
+			c2 := append([]float64(nil), fc...)
+			c3 := append([]float64(nil), fc...)
+			sort.Sort(sorting.NewFlatCoordSorting2D(l, c1))
+			sort.Sort(xy.NewRadialSorting(l, c2, a.pts[0]))
+			s := sorting.NewFlatCoordSorting(l, c3, sorting.IsLess2D)
+			return dig(c1, c2, s.Len(), s.Less(0, s.Len()-1), sorting.IsLess2D(a.pts[0], a.pts[1]), sorting.IsLess2D(a.pts[1], a.pts[0]))
+		}},
+		{"transform.TreeSet", func(a *callArg) string {
+			shared := a.tree.ToFlatArray() // query on the shared, populated set
+			fc, ok := flatOfT(a.g)
+			if !ok || a.g.Stride() < 2 {
+				return dig(shared)
+			}
+			ts := transform.NewTreeSet(a.g.Layout(), hullCmp{}) // a set per call, fed with views of the shared coordinates
+			n := 0
+			for i := 0; i+a.g.Stride() <= len(fc); i += a.g.Stride() {
+				if ts.Insert(fc[i : i+a.g.Stride()]) {
+					n++
+				}
+			}
+			return dig(shared, ts.ToFlatArray(), n)
 		}},
 	}
 	far := func(l geom.Layout) geom.T {
@@ -472,11 +982,13 @@ type namedGeom struct {
 	g  geom.T
 }
 
-// callArgs: the shared arguments. The encodings handed to the decoders are produced from a SECOND, equal set of
-// geometries, so that the shared geometries have not been touched by any library call before their first snapshot.
+// callArgs: the shared arguments. The encodings handed to the decoders (and the Bounds / Feature / TreeSet values) are
+// produced from a SECOND, equal set of geometries, so that the shared geometries have not been touched by any library
+// call before their first snapshot.
 func callArgs(seed int64) []*callArg {
 	gs := buildGeoms(rand.New(rand.NewSource(seed)))
 	twins := buildGeoms(rand.New(rand.NewSource(seed)))
+	rb := rand.New(rand.NewSource(seed ^ 0x5eed))
 	var out []*callArg
 	for i, x := range gs {
 		t := twins[i].g
@@ -486,10 +998,11 @@ func callArgs(seed int64) []*callArg {
 		a.gjB, _ = geojson.Marshal(t)
 		a.wktS, _ = wkt.Marshal(t)
 		a.hexS, _ = wkbhex.Encode(t, wkb.XDR, wkbcommon.WKBOptionEmptyPointHandling(wkbcommon.EmptyPointHandlingNaN))
+		a.ehexS, _ = ewkbhex.Encode(t, ewkb.NDR)
 		a.igcB = []byte("AXXX\nHFDTE010100\nI013636TDS\nB1200004730000N00830000EA00500006005\nB1200014730001N00830002EA00501006015\n")
 		var fc []float64
 		stride := 2
-		if _, isGC := t.(*geom.GeometryCollection); !isGC && len(t.FlatCoords()) >= 4*t.Stride() && t.Stride() >= 2 {
+		if _, isGC := t.(*geom.GeometryCollection); !isGC && t.Stride() >= 2 && len(t.FlatCoords()) >= 4*t.Stride() {
 			fc, stride = t.FlatCoords(), t.Stride()
 		} else {
 			fc = []float64{0, 0, 4, 4, 0, 4, 4, 0}
@@ -497,11 +1010,115 @@ func callArgs(seed int64) []*callArg {
 		n := len(fc) / stride
 		for k := 0; k < 4; k++ {
 			j := (k * (n / 4)) % n
-			a.pts = append(a.pts, append(geom.Coord{}, fc[j*stride:(j+1)*stride]...))
+			c := append(geom.Coord{}, fc[j*stride:(j+1)*stride]...)
+			a.pts = append(a.pts, c)
+			c3 := geom.Coord{c[0], c[1], 0}
+			if len(c) > 2 {
+				c3[2] = c[2]
+			}
+			a.pts3 = append(a.pts3, c3)
+		}
+		// Bounds values of their own (computed from the twin)
+		a.bnd, _ = sub(func() any { return t.Bounds() }).(*geom.Bounds)
+		if a.bnd == nil {
+			a.bnd = geom.NewBounds(geom.XY)
+		}
+		a.bnd2 = geom.NewBounds(geom.XY).Set(a.pts[0][0]-1, a.pts[0][1]-1, a.pts[0][0]+1, a.pts[0][1]+1)
+		// GeoJSON values: the Feature holds the SHARED geometry itself and a Bounds / property map of its own
+		a.crs = &geojson.CRS{Type: "name", Properties: map[string]interface{}{"name": "urn:ogc:def:crs:OGC:1.3:CRS84"}}
+		a.feat = &geojson.Feature{ID: "f-" + x.id, BBox: geom.NewBounds(geom.XY).Set(-1, -2, 3, 4), Geometry: x.g,
+			Properties: map[string]interface{}{"name": x.id, "n": 3.5, "tags": []interface{}{"a", "b"}, "nested": map[string]interface{}{"k": true}}}
+		a.feat2 = &geojson.Feature{Geometry: geom.NewPointFlat(geom.XYZ, []float64{7, 8, 9}), Properties: map[string]interface{}{"i": 1.0}}
+		a.fc = &geojson.FeatureCollection{BBox: geom.NewBounds(geom.XYZ).Set(0, 0, 0, 5, 6, 7), Features: []*geojson.Feature{a.feat, a.feat2}}
+		tf := &geojson.Feature{ID: a.feat.ID, BBox: geom.NewBounds(geom.XY).Set(-1, -2, 3, 4), Geometry: t,
+			Properties: map[string]interface{}{"name": x.id, "n": 3.5, "tags": []interface{}{"a", "b"}}}
+		a.featB, _ = sub(func() any { b, _ := tf.MarshalJSON(); return b }).([]byte)
+		a.fcB, _ = sub(func() any {
+			b, _ := (&geojson.FeatureCollection{BBox: geom.NewBounds(geom.XY).Set(0, 0, 5, 6), Features: []*geojson.Feature{tf, tf}}).MarshalJSON()
+			return b
+		}).([]byte)
+		a.gjG, _ = sub(func() any { g, _ := geojson.Encode(t); return g }).(*geojson.Geometry)
+		a.enc = wkt.NewEncoder(wkt.EncodeOptionWithMaxDecimalDigits(4))
+		// a populated set (coordinates of its own)
+		a.tree = transform.NewTreeSet(geom.XY, hullCmp{})
+		own := append([]float64(nil), fc...)
+		for j := 0; j+stride <= len(own) && j < 24*stride; j += stride {
+			a.tree.Insert(own[j : j+2])
+		}
+		a.lir = lineintersection.NewResult(lineintersection.CollinearIntersection, []geom.Coord{a.pts[0].Clone(), a.pts[1].Clone()})
+		if x.id == "ls-nolayout" {
+			a.gjB = []byte(`{"type":"LineString"}`) // what the GeoJSON decoder turns into a NoLayout LineString
+			raw := json.RawMessage(`[]`)
+			a.gjG = &geojson.Geometry{Type: "Polygon", Coordinates: &raw}
+		}
+		if len(x.id) > 4 && x.id[:4] == "bad-" {
+			spoil(a, x.id, rb)
 		}
 		out = append(out, a)
 	}
 	return out
+}
+
+// spoil replaces the encodings of an argument by MALFORMED ones (the geometry itself stays a proper one): every decoder
+// gets them, sequentially and concurrently; what it answers (an error class, mostly) is the recorded result.
+func spoil(a *callArg, kind string, r *rand.Rand) {
+	cutB := func(b []byte, n int) []byte {
+		if n > len(b) {
+			n = len(b)
+		}
+		return append([]byte(nil), b[:n]...)
+	}
+	switch kind {
+	case "bad-truncated": // cut somewhere in the middle (seeded)
+		at := func(n int) int {
+			if n < 2 {
+				return 0
+			}
+			return 1 + r.Intn(n-1)
+		}
+		a.wkbB, a.ewkbB, a.gjB = cutB(a.wkbB, at(len(a.wkbB))), cutB(a.ewkbB, at(len(a.ewkbB))), cutB(a.gjB, at(len(a.gjB)))
+		a.wktS, a.hexS, a.ehexS = a.wktS[:at(len(a.wktS))], a.hexS[:at(len(a.hexS))], a.ehexS[:at(len(a.ehexS))]
+		a.igcB, a.featB, a.fcB = cutB(a.igcB, at(len(a.igcB))), cutB(a.featB, at(len(a.featB))), cutB(a.fcB, at(len(a.fcB)))
+		raw := json.RawMessage(`[[1,2],[3`)
+		a.gjG = &geojson.Geometry{Type: "LineString", Coordinates: &raw}
+	case "bad-cut1": // the last byte is missing (odd number of hex digits, open bracket, half a float)
+		a.wkbB, a.ewkbB, a.gjB = cutB(a.wkbB, len(a.wkbB)-1), cutB(a.ewkbB, len(a.ewkbB)-1), cutB(a.gjB, len(a.gjB)-1)
+		a.wktS, a.hexS, a.ehexS = a.wktS[:len(a.wktS)-1], a.hexS[:len(a.hexS)-1], a.ehexS[:len(a.ehexS)-1]
+		a.igcB, a.featB, a.fcB = cutB(a.igcB, len(a.igcB)-9), cutB(a.featB, len(a.featB)-1), cutB(a.fcB, len(a.fcB)-1)
+		raw := json.RawMessage(`[[[1,2],[3,4],[5,6],[1,2]]`)
+		a.gjG = &geojson.Geometry{Type: "Polygon", Coordinates: &raw}
+	case "bad-garbage": // the wrong thing altogether
+		a.wkbB = append([]byte{7}, a.wkbB[1:]...)                             // unknown byte order mark
+		a.ewkbB = append(append([]byte{}, a.ewkbB[:1]...), 0, 0, 0, 99, 1, 2) // unknown type
+		a.gjB = []byte(`{"type":"Nope","coordinates":[1,2]}`)
+		a.wktS = "LINESTRING ZM (1 2 3, 4 5 6 7) ) POINT"
+		a.hexS = "zz" + a.hexS[2:]
+		a.ehexS = "0x" + a.ehexS
+		a.igcB = []byte("AXXX\nHFDTE991399\nI013636TDSx\nB2561004730000X00830000EA00500006005\nB12\n\x00\xff\n")
+		a.featB = []byte(`{"type":"NotAFeature","geometry":null,"properties":null}`)
+		a.fcB = []byte(`{"type":"FeatureCollection","bbox":[1,2,3],"features":[]}`)
+		raw := json.RawMessage(`{"x":1}`)
+		a.gjG = &geojson.Geometry{Type: "MultiPoint", Coordinates: &raw}
+	case "bad-lies": // well-formed containers whose contents do not fit their headers
+		a.wkbB = append([]byte(nil), a.wkbB...)
+		binary.LittleEndian.PutUint32(a.wkbB[5:9], binary.LittleEndian.Uint32(a.wkbB[5:9])+1000) // more parts / points announced than present
+		a.ewkbB = append([]byte(nil), a.ewkbB...)
+		a.ewkbB[len(a.ewkbB)/2] ^= 0x40
+		a.ewkbB = append(a.ewkbB, 1, 2, 3) // and trailing bytes
+		a.gjB = []byte(`{"type":"Polygon","coordinates":[[1,2],[3,4]]}`)
+		a.wktS = "POLYGON ((0 0, 1 1 1, 2 2, 0 0))"
+		a.hexS = a.hexS + "00"
+		a.ehexS = a.ehexS[:10] + "e8030000" + a.ehexS[18:] // 1000 points announced
+		a.igcB = append(append([]byte(nil), a.igcB...), []byte("B1159594730000N00830000EA00500006005\nB9999999999999N99999999EA00500006005\n")...)
+		a.featB = []byte(`{"type":"Feature","id":{"a":1},"bbox":[1,2,3,4],"geometry":{"type":"Point","coordinates":[1]},"properties":{}}`)
+		a.fcB = []byte(`{"type":"FeatureCollection","features":[{"type":"Feature","geometry":{"type":"LineString","coordinates":[[1,2],[3]]},"properties":null},7]}`)
+		raw := json.RawMessage(`[[1,2],[3,4,5],[6]]`)
+		a.gjG = &geojson.Geometry{Type: "LineString", Coordinates: &raw}
+	case "bad-empty": // nothing at all
+		a.wkbB, a.ewkbB, a.gjB, a.igcB, a.featB, a.fcB = []byte{}, nil, []byte{}, nil, []byte{}, nil
+		a.wktS, a.hexS, a.ehexS = "", "", ""
+		a.gjG = nil
+	}
 }
 
 func buildGeoms(r *rand.Rand) []namedGeom {
@@ -562,6 +1179,22 @@ func buildGeoms(r *rand.Rand) []namedGeom {
 	add("mpg-unclosed-member", mpo)
 	add("mls-one-point-lines", geom.NewMultiLineStringFlat(geom.XY, []float64{1, 1, 2, 2, 3, 3, 4, 5}, []int{2, 4, 8}))
 	add("ls-one-coordinate", geom.NewLineStringFlat(geom.XYZM, []float64{1, 2, 3, 4}))
+	// further argument classes: a ring of its own, empty top-level geometries, a geometry without layout
+	add("lr-xyz", geom.NewLinearRingFlat(geom.XYZ, []float64{0, 0, 1, 8, 0, 2, 8, 6, 3, 3, 9, 4, 0, 6, 5, 0, 0, 1}))
+	add("empty-pt", geom.NewPointEmpty(geom.XY))
+	add("empty-ls-xym", geom.NewLineString(geom.XYM))
+	add("empty-pg", geom.NewPolygon(geom.XY))
+	add("empty-mpt-xyz", geom.NewMultiPoint(geom.XYZ))
+	add("empty-mls", geom.NewMultiLineString(geom.XY))
+	add("empty-mpg-xyzm", geom.NewMultiPolygon(geom.XYZM))
+	add("empty-gc", geom.NewGeometryCollection())
+	add("ls-nolayout", geom.NewLineString(geom.NoLayout))
+	// proper geometries whose ENCODINGS are spoilt afterwards (callArgs / spoil)
+	add("bad-truncated", geom.NewPolygonFlat(geom.XY, append(append([]float64{}, ring...), hole...), []int{len(ring), len(ring) + len(hole)}))
+	add("bad-cut1", geom.NewMultiLineStringFlat(geom.XYZ, rnd(7, 3, 50), []int{9, 21}))
+	add("bad-garbage", geom.NewLineStringFlat(geom.XYZM, rnd(6, 4, 50)))
+	add("bad-lies", geom.NewMultiPointFlat(geom.XY, rnd(9, 2, 50)))
+	add("bad-empty", geom.NewPointFlat(geom.XY, []float64{2, 3}))
 	return gs
 }
 
@@ -607,12 +1240,20 @@ func callsSpecial(in, out string) int {
 	}
 	// sequential pass: every op on every argument, twice (a result must not depend on an earlier call)
 	seq := 0
-	for pass := 0; pass < 2; pass++ {
+	notApplicable := map[string]bool{}
+	passes := 2
+	if p.Control {
+		passes = 0 // the sensor control only needs the concurrent pass (its log is never judged)
+	}
+	for pass := 0; pass < passes; pass++ {
 		for _, o := range ops {
 			for _, a := range args {
 				pre := a.snapshot()
 				res := o.f(a)
 				seq++
+				if res == "n/a" {
+					notApplicable[o.name+"@"+a.id] = true
+				}
 				emit(callEvent{Ev: "seq", Gor: 0, Seq: seq, Op: o.name, Arg: a.id, Res: res, Pre: pre, Post: a.snapshot()})
 				if sc := opScribs[o.name]; sc != nil && pass == 1 {
 					// the caller overwrites the object the call returned (second pass only, so that the first pass has
@@ -625,7 +1266,48 @@ func callsSpecial(in, out string) int {
 			}
 		}
 	}
-	// concurrent pass: G goroutines, each a seeded mix of calls on the SAME arguments
+	// concurrent pass: G goroutines, each a seeded mix of calls on the SAME arguments. The mix is drawn from the
+	// (operation, argument) pairs to which the operation applies (its sequential result is not "n/a").
+	type pair struct {
+		o callOp
+		a *callArg
+	}
+	var pairs []pair
+	for _, o := range ops {
+		for _, a := range args {
+			if !notApplicable[o.name+"@"+a.id] {
+				pairs = append(pairs, pair{o, a})
+			}
+		}
+	}
+	ctl := args[0] // the argument of the sensor control: a geometry with many coordinates
+	for _, a := range args {
+		if a.id == "mpt80" {
+			ctl = a
+		}
+	}
+	// Two halves. First a free mix: every goroutine draws its own (operation, argument) pairs - calls of DIFFERENT
+	// operations overlap. Then one phase per operation: all goroutines call the same operation at the same time (on
+	// arguments of their own choice), so that state kept by one operation - also on its rarely taken paths, like the
+	// error path of a decoder - is touched by several goroutines with nothing in between that would order them.
+	// (The barrier at the start of a phase orders the phases, not the calls inside one.)
+	byOp := make([][]*callArg, len(ops))
+	for i, o := range ops {
+		for _, a := range args {
+			if !notApplicable[o.name+"@"+a.id] {
+				byOp[i] = append(byOp[i], a)
+			}
+		}
+	}
+	mix, burst := p.Rounds, 0
+	if !p.Control {
+		mix = p.Rounds / 2
+		burst = (p.Rounds - mix + len(ops) - 1) / len(ops)
+	}
+	barriers := make([]sync.WaitGroup, len(ops))
+	for i := range barriers {
+		barriers[i].Add(p.Goroutines)
+	}
 	var wg sync.WaitGroup
 	evs := make([][]callEvent, p.Goroutines)
 	start := make(chan struct{})
@@ -635,24 +1317,41 @@ func callsSpecial(in, out string) int {
 			defer wg.Done()
 			rr := rand.New(rand.NewSource(seed*1000 + int64(g)))
 			<-start
-			for k := 0; k < p.Rounds; k++ {
-				o := ops[rr.Intn(len(ops))]
-				a := args[rr.Intn(len(args))]
+			k := 0
+			call := func(o callOp, a *callArg) {
+				res := o.f(a)
+				k++
+				evs[g] = append(evs[g], callEvent{Ev: "conc", Gor: g + 1, Seq: k, Op: o.name, Arg: a.id, Res: res, Pre: "-", Post: "-"})
+			}
+			for k < mix {
+				pr := pairs[rr.Intn(len(pairs))]
+				o, a := pr.o, pr.a
+				if p.Control {
+					o = ops[rr.Intn(len(ops))]
+				}
 				if p.Control && g == 0 {
 					// positive control of the sensor (never part of a verdict run): the HARNESS keeps writing to a shared
 					// slice (reversing it in place, so every round really writes) while the other goroutines read it
-					if fc, ok := flatOfT(args[4].g); ok {
+					if fc, ok := flatOfT(ctl.g); ok {
 						for i, j := 0, len(fc)-1; i < j; i, j = i+1, j-1 {
 							fc[i], fc[j] = fc[j], fc[i]
 						}
 					}
-					a = args[4]
+					a = ctl
 				}
 				if p.Control && g != 0 && k%2 == 0 {
-					a = args[4]
+					a = ctl
 				}
-				res := o.f(a)
-				evs[g] = append(evs[g], callEvent{Ev: "conc", Gor: g + 1, Seq: k + 1, Op: o.name, Arg: a.id, Res: res, Pre: "-", Post: "-"})
+				call(o, a)
+			}
+			if burst > 0 {
+				for i, o := range ops {
+					barriers[i].Done()
+					barriers[i].Wait()
+					for j := 0; j < burst && len(byOp[i]) > 0; j++ {
+						call(o, byOp[i][rr.Intn(len(byOp[i]))])
+					}
+				}
 			}
 		}(g)
 	}
@@ -668,7 +1367,6 @@ func callsSpecial(in, out string) int {
 	}
 	w.Flush()
 	fout.Close()
-	_ = strings.TrimSpace
 	return 0
 }
 
